@@ -390,3 +390,7 @@ def _origin_keys(body, op):
       out.add('call:' + (o.call.name or '').split('::')[-1])
       break
   return out
+
+
+# sensitivity pack (thorough tier): each seeded edit must be reported by the named rule instance
+MUTANTS = [{'name': 'seeded-C19-a', 'patch': 'C19-a/patch.diff', 'expect': ('R19.4', 'content_inner', 'forwards its own cache flag')}]
